@@ -75,30 +75,35 @@ def SafeTail (Y : Str) : Prop :=
   Y = [] ∨ (∃ Z, Y = '\n' :: Z) ∨ (∃ c Z, Y = ' ' :: c :: Z ∧ (c = ' ' ∨ c = '#'))
 
 /-- **No early marker.** A non-empty piece of code that does not contain `# paroxython:` cannot
-start an occurrence of `# paroxython: ` that would run over what follows it. -/
-theorem no_m14_prefix (a Y : Str) (ha : a ≠ []) (hm : noM13 a = true) (hY : SafeTail Y) :
-    m14.isPrefixOf (a ++ Y) = false := by
+start an occurrence of `# paroxython:` that would run over what follows it. -/
+theorem no_m13_prefix (a Y : Str) (ha : a ≠ []) (hm : noM13 a = true) (hY : SafeTail Y) :
+    m13.isPrefixOf (a ++ Y) = false := by
   rw [← Bool.not_eq_true, List.isPrefixOf_iff_prefix]
   intro hp
   have hm' : ¬ m13 <:+: a := by
     simpa [noM13, ← Bool.not_eq_true, hasInfix_iff] using hm
   by_cases hlen : 13 ≤ a.length
-  · have h13 : m13 <+: a ++ Y := (List.prefix_append m13 [' ']).trans hp
-    exact hm' (List.prefix_of_prefix_length_le h13 (List.prefix_append a Y) (by simpa [m13] using hlen)).isInfix
-  · have hpre : a <+: m14 :=
-      List.prefix_of_prefix_length_le (List.prefix_append a Y) hp (by simp [m14, m13]; omega)
-    have ha' : a = m14.take a.length := List.prefix_iff_eq_take.mp hpre
+  · exact hm' (List.prefix_of_prefix_length_le hp (List.prefix_append a Y) (by simpa [m13] using hlen)).isInfix
+  · have hpre : a <+: m13 :=
+      List.prefix_of_prefix_length_le (List.prefix_append a Y) hp (by simp [m13]; omega)
+    have ha' : a = m13.take a.length := List.prefix_iff_eq_take.mp hpre
     obtain ⟨t, ht⟩ := hp
-    have hY' : Y = m14.drop a.length ++ t := by
-      have h1 : m14.take a.length ++ Y = m14.take a.length ++ (m14.drop a.length ++ t) := by
+    have hY' : Y = m13.drop a.length ++ t := by
+      have h1 : m13.take a.length ++ Y = m13.take a.length ++ (m13.drop a.length ++ t) := by
         rw [← List.append_assoc, List.take_append_drop, ← ha', ht]
       exact List.append_cancel_left h1
     have hpos : 0 < a.length := List.length_pos_iff.mpr ha
     have hlt : a.length < 13 := by omega
     generalize a.length = n at hY' hpos hlt
-    interval_cases n <;> simp [m14, m13] at hY' <;>
+    interval_cases n <;> simp [m13] at hY' <;>
       (rcases hY with rfl | ⟨Z, rfl⟩ | ⟨c, Z, rfl, hc⟩ <;> simp at hY' <;>
         (try (rcases hc with rfl | rfl <;> simp at hY')))
+
+theorem no_m14_prefix (a Y : Str) (ha : a ≠ []) (hm : noM13 a = true) (hY : SafeTail Y) :
+    m14.isPrefixOf (a ++ Y) = false := by
+  have h := no_m13_prefix a Y ha hm hY
+  rw [← Bool.not_eq_true, List.isPrefixOf_iff_prefix] at h ⊢
+  exact fun hp => h ((List.prefix_append m13 [' ']).trans hp)
 
 theorem hasInfix_m14_false {a : Str} (hm : noM13 a = true) : hasInfix m14 a = false := by
   rw [← Bool.not_eq_true, hasInfix_iff]
@@ -446,10 +451,6 @@ theorem hintAhead_code (a Y : Str) (ha : a ≠ []) (hm : noM13 a = true)
   exact no_m14_prefix _ Y (dropWhile_ne_nil_of_exists a hex)
     (noM13_of_infix hm (List.dropWhile_suffix _).isInfix) hY
 
-theorem isolatedRest_none_of (l : Str) (h : hintAhead l = false) : isolatedRest l = none := by
-  unfold hintAhead at h
-  simp [isolatedRest, h]
-
 theorem dropWhile_spaces (n : Nat) (R : Str) (hR : ∀ c, R.head? = some c → isSpaceRe c = false) :
     (List.replicate n ' ' ++ R).dropWhile isSpaceRe = R := by
   induction n with
@@ -460,14 +461,11 @@ theorem dropWhile_spaces (n : Nat) (R : Str) (hR : ∀ c, R.head? = some c → i
   | succ n ih =>
     rw [List.replicate_succ, List.cons_append, List.dropWhile_cons_of_pos (by decide), ih]
 
-theorem isolatedRest_isolated (n : Nat) (L : Str) (hL : L ≠ []) :
+theorem isolatedRest_isolated (n : Nat) (L : Str) :
     isolatedRest (List.replicate n ' ' ++ (m14 ++ L)) = some L := by
   have h1 := dropWhile_spaces n (m14 ++ L) (by intro c hc; simp [m14, m13] at hc; subst hc; decide)
-  cases L with
-  | nil => exact absurd rfl hL
-  | cons c t =>
-    simp only [isolatedRest, h1]
-    simp [m14, m13, List.isPrefixOf_cons_cons]
+  simp only [isolatedRest, h1]
+  simp [m14, m13, List.isPrefixOf_cons_cons]
 
 theorem suffix_getLast? {a s : Str} (h : a <:+ s) (ha : a ≠ []) : a.getLast? = s.getLast? := by
   obtain ⟨t, rfl⟩ := h
@@ -475,21 +473,34 @@ theorem suffix_getLast? {a s : Str} (h : a <:+ s) (ha : a ≠ []) : a.getLast? =
   | nil => exact absurd rfl ha
   | cons c r => rw [List.getLast?_append, List.getLast?_cons]; rfl
 
+/-- The marker is not in sight, white space skipped, from the beginning of a piece of code. -/
+theorem m13_ahead_code (a Y : Str) (ha : a ≠ []) (hm : noM13 a = true)
+    (ht : ∀ x, a.getLast? = some x → isSpacePy x = false) (hY : SafeTail Y) :
+    m13.isPrefixOf ((a ++ Y).dropWhile isSpaceRe) = false := by
+  have hex : ∃ c ∈ a, isSpaceRe c = false := by
+    obtain ⟨x, hx⟩ : ∃ x, a.getLast? = some x := by
+      cases h : a.getLast? with
+      | none => simp at h; exact absurd h ha
+      | some x => exact ⟨x, rfl⟩
+    exact ⟨x, List.mem_of_getLast? hx, not_isSpacePy_of x (ht x hx)⟩
+  rw [dropWhile_append_of_exists a Y hex]
+  exact no_m13_prefix _ Y (dropWhile_ne_nil_of_exists a hex)
+    (noM13_of_infix hm (List.dropWhile_suffix _).isInfix) hY
+
 theorem isolatedRest_renderCode (c : CodeLine) (ok : OkCode c) : isolatedRest (renderCode c) = none := by
-  apply isolatedRest_none_of
-  by_cases hcode : c.code = []
-  · have hh : c.hints = [] := by
-      by_cases h : c.hints = []
-      · exact h
-      · exact absurd hcode (ok.hinted h)
-    simp [renderCode_plain c hh, hcode, hintAhead, m14, m13]
-  · by_cases h : c.hints = []
-    · rw [renderCode_plain c h]
-      have := hintAhead_code c.code [] hcode ok.nom ok.notrail (Or.inl rfl)
-      simpa using this
-    · rw [renderCode_hinted c h]
-      have := hintAhead_code c.code (hintPart c ++ []) hcode ok.nom ok.notrail (hintPart_safe c h [])
-      simpa using this
+  have key : m13.isPrefixOf ((renderCode c).dropWhile isSpaceRe) = false := by
+    by_cases hcode : c.code = []
+    · have hh : c.hints = [] := by
+        by_cases h : c.hints = []
+        · exact h
+        · exact absurd hcode (ok.hinted h)
+      simp [renderCode_plain c hh, hcode, m13]
+    · by_cases h : c.hints = []
+      · rw [renderCode_plain c h]
+        simpa using m13_ahead_code c.code [] hcode ok.nom ok.notrail (Or.inl rfl)
+      · rw [renderCode_hinted c h]
+        simpa using m13_ahead_code c.code (hintPart c ++ []) hcode ok.nom ok.notrail (hintPart_safe c h [])
+  simp [isolatedRest, key]
 
 /-! ### `sub_hints` on a decorated text -/
 
@@ -575,7 +586,6 @@ theorem hintAhead_lines (cs : List CodeLine) (ok : ∀ c ∈ cs, OkCode c) :
     · cases t with
       | nil =>
         simp only [List.map_cons, List.map_nil, joinNL]
-        have := isolatedRest_renderCode c okc
         by_cases h : c.hints = []
         · rw [renderCode_plain c h]
           simpa using hintAhead_code c.code [] hcode okc.nom okc.notrail (Or.inl rfl)
